@@ -98,6 +98,7 @@ type hist struct {
 	slow     int
 	seg      bool
 	to0      bool
+	poolMax  int    // nbcli: MaxConnsPerHost of the Client (0: 3)
 	abortAt  int    // raw: 1 + index of the request after sending which the client closes the connection without reading (0: none)
 	cbPanic  int    // nbc: 1 + index of the request whose callback panics when it is invoked (0: none)
 	dialFail int    // nbc/nbcli: the first dialFail dial attempts of the client fail ...
@@ -405,7 +406,11 @@ func genHist(g *lp.Gen, cid int, thorough bool) {
 	if kind == "nbc" && g.Chance(1, 7) {
 		cbPanic = 1 + dialFail + g.Intn(n-dialFail)
 	}
-	g.P("K %d %s sched=%s slow=%d seg=%d to0=%d dialfail=%d dialkind=%s cbpanic=%d", cid, kind, sched.String(), slow, b(seg), b(to0), dialFail, dialKind, cbPanic)
+	poolMax := 0
+	if kind == "nbcli" && g.Chance(1, 2) {
+		poolMax = 1 + g.Intn(3)
+	}
+	g.P("K %d %s sched=%s slow=%d seg=%d to0=%d dialfail=%d dialkind=%s cbpanic=%d pool=%d", cid, kind, sched.String(), slow, b(seg), b(to0), dialFail, dialKind, cbPanic, poolMax)
 	rid := 0
 	closedFor := false
 	// RFC 7230 6.6 reset hazard: a server that closes while requests are still unread resets the connection,
@@ -421,6 +426,12 @@ func genHist(g *lp.Gen, cid int, thorough bool) {
 		}
 		if afterClose && (inflight > 16384 || slow > 0) {
 			r.sync = true
+		}
+		if poolMax > 0 && dialFail == 0 && g.Chance(2, 3) {
+			r.sync = false // bursts larger than the pool: the surplus waits in getConn
+			if r.d == 0 {
+				r.d = 1 + g.Intn(3)
+			}
 		}
 		if dialFail > 0 {
 			if i < dialFail {
@@ -704,6 +715,37 @@ func hlogAdd(cid, rid int) {
 	hlogMu.Unlock()
 }
 
+// in-flight handlers per history (server side): the pool bound of nbhttp.Client shows here
+var (
+	inflMu  sync.Mutex
+	inflCur = map[int]int{}
+	inflMax = map[int]int{}
+)
+
+func inflEnter(cid int) {
+	inflMu.Lock()
+	inflCur[cid]++
+	if inflCur[cid] > inflMax[cid] {
+		inflMax[cid] = inflCur[cid]
+	}
+	inflMu.Unlock()
+}
+
+func inflLeave(cid int) {
+	inflMu.Lock()
+	inflCur[cid]--
+	inflMu.Unlock()
+}
+
+func inflTake(cid int) int {
+	inflMu.Lock()
+	defer inflMu.Unlock()
+	m := inflMax[cid]
+	delete(inflMax, cid)
+	delete(inflCur, cid)
+	return m
+}
+
 func hlogTake(cid int) []int {
 	hlogMu.Lock()
 	defer hlogMu.Unlock()
@@ -747,6 +789,8 @@ func handler(w http.ResponseWriter, r *http.Request) {
 	geti := func(k string) int { n, _ := strconv.Atoi(q.Get(k)); return n }
 	st, sz, fr, nw, fl, d := geti("st"), geti("sz"), q.Get("fr"), geti("w"), q.Get("fl") == "1", geti("d")
 	hlogAdd(cid, rid)
+	inflEnter(cid)
+	defer inflLeave(cid)
 	var rb []byte
 	if r.Body != nil {
 		rb, _ = io.ReadAll(r.Body)
@@ -1669,7 +1713,17 @@ func (h *hist) checkResponseCB(r *reqSpec, rec *cbRec, res *result) {
 }
 
 func (s *server) runNbcli(h *hist) {
-	cl := &nbhttp.Client{Engine: s.cli, Timeout: 40 * time.Second, MaxConnsPerHost: 3, Dial: h.dialer()}
+	poolMax := 3
+	if h.poolMax > 0 {
+		poolMax = h.poolMax
+	}
+	cl := &nbhttp.Client{Engine: s.cli, Timeout: 40 * time.Second, MaxConnsPerHost: int32(poolMax), Dial: h.dialer()}
+	defer func() {
+		// at most MaxConnsPerHost ClientConns, one exchange each: never more requests of this client in their handlers
+		if m := inflTake(h.cid); m > poolMax {
+			h.fail(false, "c10-client-pool", "%d requests of one nbhttp.Client were being handled by the server at the same time, MaxConnsPerHost = %d", m, poolMax)
+		}
+	}()
 	if s.cell.tls {
 		cl.TLSClientConfig = cliTLS()
 	}
@@ -1899,7 +1953,7 @@ func parseCase(lines []string) (*caseT, error) {
 				return nil, fmt.Errorf("bad K line")
 			}
 			cid, _ := strconv.Atoi(f[1])
-			h := &hist{cid: cid, kind: f[2], slow: kvi(f, "slow"), seg: kv(f, "seg") == "1", to0: kv(f, "to0") == "1", failAt: kvi(f, "fail"), dialFail: kvi(f, "dialfail"), dialKind: kv(f, "dialkind"), cbPanic: kvi(f, "cbpanic"), abortAt: kvi(f, "abort"), res: map[int]*result{}}
+			h := &hist{cid: cid, kind: f[2], slow: kvi(f, "slow"), seg: kv(f, "seg") == "1", to0: kv(f, "to0") == "1", failAt: kvi(f, "fail"), dialFail: kvi(f, "dialfail"), dialKind: kv(f, "dialkind"), cbPanic: kvi(f, "cbpanic"), abortAt: kvi(f, "abort"), poolMax: kvi(f, "pool"), res: map[int]*result{}}
 			switch h.kind {
 			case "raw", "std", "nbc", "nbcli", "nbx":
 			default:
@@ -1928,7 +1982,7 @@ func parseCase(lines []string) (*caseT, error) {
 // freshHist: a copy of the static part of h with empty results — every attempt runs on its own copy, so a client
 // call that never returns (and the goroutine stuck in it) cannot touch what a later attempt or the printer reads
 func freshHist(h *hist, cliEpoll string) *hist {
-	cl := &hist{cid: h.cid, kind: h.kind, slow: h.slow, seg: h.seg, to0: h.to0, dialFail: h.dialFail, dialKind: h.dialKind, cbPanic: h.cbPanic, abortAt: h.abortAt,
+	cl := &hist{cid: h.cid, kind: h.kind, slow: h.slow, seg: h.seg, to0: h.to0, dialFail: h.dialFail, dialKind: h.dialKind, cbPanic: h.cbPanic, abortAt: h.abortAt, poolMax: h.poolMax,
 		failAt: h.failAt, reqs: h.reqs, res: map[int]*result{}, cut: -1, cliEpoll: cliEpoll}
 	for _, r := range h.reqs {
 		cl.res[r.rid] = &result{cb: -1}
@@ -1955,6 +2009,7 @@ func (c *caseT) runOnce() error {
 		r := &run{h: h, clone: cl, done: make(chan struct{})}
 		runs = append(runs, r)
 		hlogTake(h.cid) // entries of an earlier attempt
+		inflTake(h.cid)
 		go func(h *hist, done chan struct{}) {
 			defer close(done)
 			defer func() {
